@@ -647,3 +647,69 @@ def varmap_add(c):
     c.ensures("recorded-references-stay-and-the-new-one-is-appended-unless-it-is-an-exact-duplicate", post)
     c.raises()
     c.replay("code", code=REPLAY_VARMAP)
+
+
+@structural("C19", "partial-scope-push-pop-and-load-context")
+def partial_scope_balance_and_load_context():
+    """(1) the scope pushed for a partial is popped on every way out of the visit: no `return` sits
+    between the push and the pop; (2) analysis loads a partial exactly as rendering does: every
+    get_template[_async] call in a node's children()/children_async() passes the same `context=` /
+    `tag=` keywords as the node's render method (a loader may pick the template by its load
+    context)"""
+    obs = []
+    mod = load.get_module("liquid.static_analysis")
+    for fname in ("analyze", "analyze_async"):
+        fn = mod.funcs[fname]
+        for inner in ast.walk(fn):
+            if isinstance(inner, (ast.FunctionDef, ast.AsyncFunctionDef)) and inner.name == "_visit":
+                pushes = [c_.lineno for c_ in flow.calls(inner) if isinstance(c_.func, ast.Attribute) and c_.func.attr == "push" and flow.dotted(c_.func.value) == "root_scope"]
+                pops = [c_.lineno for c_ in flow.calls(inner) if flow.dotted(c_.func) == "partial_scope.pop"]
+                rets = [r_.lineno for r_ in ast.walk(inner) if isinstance(r_, ast.Return)]
+                bad = [r_ for r_ in rets if pushes and pops and min(pushes) < r_ < max(pops)]
+                obs.append(flow.ob(f"{fname}._visit:no-return-between-pushing-and-popping-the-partials-scope", bool(pushes) and bool(pops) and not bad, f"push@{pushes} pop@{pops} returns@{rets}", replay_schema="code", replay_extra={"code": REPLAY_SCOPE_LEAK}))
+    n = 0
+    for m in load.all_modules():
+        for cname, cnode in load.get_module(m).classes.items():
+            render = {f.name: f for f in cnode.body if isinstance(f, (ast.FunctionDef, ast.AsyncFunctionDef))}
+            for meth, rmeth in (("children", "render_to_output"), ("children_async", "render_to_output_async")):
+                if meth not in render or rmeth not in render:
+                    continue
+                def kws(f):
+                    return [sorted(k.arg for k in c_.keywords if k.arg) for c_ in flow.calls(f) if isinstance(c_.func, ast.Attribute) and c_.func.attr in ("get_template", "get_template_async")]
+                ck, rk = kws(render[meth]), kws(render[rmeth])
+                if not ck or not rk:
+                    continue
+                n += 1
+                want = set(rk[0])
+                obs.append(flow.ob(f"{cname}.{meth}:loads-the-partial-with-the-same-keywords-as-{rmeth}", all(set(k) == want for k in ck), f"{meth}: {ck}; {rmeth}: {rk}", replay_schema="code", replay_extra={"code": REPLAY_LOAD_CONTEXT}))
+    obs.append(flow.ob("partial-loading-nodes-found", n >= 2, f"{n}"))
+    return obs
+
+
+REPLAY_SCOPE_LEAK = r'''
+def run(m):
+    import asyncio
+    from liquid import Environment, DictLoader
+    env = Environment(loader=DictLoader({"rec": "{% if depth %}{% include 'rec', title: 'x' %}{% endif %}{{ title }}"}))
+    t = env.from_string("{% include 'rec', title: 'top' %}{{ title }}")
+    bad = []
+    for an in (t.analyze(), asyncio.run(t.analyze_async())):
+        if "title" not in an.globals:
+            bad.append(sorted(an.globals))
+    return {"violated": bool(bad), "observed": bad, "witness": "argument-name-left-in-scope-after-a-recursive-include"}
+'''
+
+REPLAY_LOAD_CONTEXT = r'''
+def run(m):
+    import asyncio
+    from liquid import Environment
+    from liquid.loader import BaseLoader, TemplateSource
+    class L(BaseLoader):
+        def get_source(self, env, template_name, *, context=None, **kwargs):
+            tag = kwargs.get("tag")
+            return TemplateSource("{{ in_render }}" if tag == "render" else "{{ elsewhere }}", template_name, None)
+    env = Environment(loader=L())
+    t = env.from_string("{% render 'p' %}")
+    a, b = t.analyze(), asyncio.run(t.analyze_async())
+    return {"violated": sorted(a.variables) != sorted(b.variables) or "in_render" not in a.variables, "observed": [sorted(a.variables), sorted(b.variables)], "witness": "analysis-loads-another-template-than-rendering"}
+'''
